@@ -29,10 +29,20 @@ class SchedSession(Session):
         self.commit_log = []
         self.actors = []
         self.ram = None
+        self.last_mut = {}     # task id -> seq of its last mutating storage event
+        self.lock_events = []  # (seq, time, task name, kind)
+        self.lock_holds = []   # [task name, acq seq, acq time, rel seq, rel time]
         self.k.event_hooks.append(self._on_event)
         self.k.post_hooks.append(self._on_post)
 
+    MUT = ("creat", "write", "rename", "unlink", "truncate", "mkdir", "rmdir", "makedirs",
+           "ram.create_file", "ram.rename_file", "ram.delete_file")
+
     def _on_event(self, k, task, kind, detail):
+        if kind in self.MUT and "WRITELOCK" not in detail:
+            self.last_mut[task.id] = k.seq
+        elif kind in ("flock", "funlock") and "WRITELOCK" in detail:
+            self.lock_events.append((k.seq, k.time(), task.name, kind))
         if kind == "rename" or kind == "ram.rename_file":
             dst = detail.split(">")[-1] if ">" in detail else detail.split(",")[-1]
             m = TOC_RE.search(dst)
@@ -44,6 +54,13 @@ class SchedSession(Session):
                     actor.apply_pending_commit()
 
     def _on_post(self, k, task, kind, detail):
+        if kind == "locked" and "WRITELOCK" in detail:
+            self.lock_holds.append([task.name, k.seq, k.time(), None, None])
+        elif kind == "unlocked" and "WRITELOCK" in detail:
+            for h in reversed(self.lock_holds):
+                if h[3] is None:
+                    h[3], h[4] = k.seq, k.time()
+                    break
         if kind == "rename":
             m = TOC_RE.search(detail.split(">")[-1])
             if m:
@@ -151,7 +168,7 @@ class SchedWriter(HistActor):
         att["outcome"] = "acquired"
         att["b"] = k.seq
         att["t1"] = k.time()
-        hold = [k.seq, None, None, self.name]
+        hold = [k.seq, None, None, self.name, k.time(), None, None]
         self.held.append(hold)
         s.all_holds.append(hold)
         self.w = w
@@ -159,16 +176,52 @@ class SchedWriter(HistActor):
         self.failed_in_body = None
         self._fault_fired = False
         gen_target = s.model.generation + 1
+        self.last_outcome = None
         try:
             for op in tx["body"]:
-                self.step(op)
+                if op[0] == "nested_attempt":
+                    self.nested_attempt()
+                else:
+                    self.step(op)
             self.step(tx["end"])
         finally:
             hold[1] = k.seq
-        if tx["end"][0] == "commit":
+            lm = s.last_mut.get(k.current.id, 0)
+            hold[5] = lm if lm > hold[0] else hold[0]   # end of the critical section by effects
+            hold[6] = k.time()
+        att["result"] = self.last_outcome
+        if self.last_outcome == "commit":
             hold[2] = gen_target
             s.ret.setdefault(gen_target, k.seq)
             s.commit_log.append((gen_target, self.name))
+
+
+def _nested_attempt(self):
+    """While this actor's writer is open, a second ix.writer(timeout=0) must
+    fail with LockError."""
+    from whoosh.index import LockError
+    k = self.s.k
+    k.event("step", "nested_attempt")
+    att = {"actor": self.name, "a": k.seq, "t0": k.time(), "timeout": 0.0, "delay": 0.1, "nested": True}
+    self.attempts.append(att)
+    try:
+        w2 = self.ix.writer(timeout=0.0)
+    except LockError:
+        att["outcome"] = "LockError"
+        att["b"] = k.seq
+        att["t1"] = k.time()
+        self.s.count("nested_lockerror")
+        return
+    att["outcome"] = "nested_proceeded"
+    att["b"] = k.seq
+    att["t1"] = k.time()
+    try:
+        w2.cancel()
+    except Exception:  # noqa
+        pass
+
+
+SchedWriter.nested_attempt = _nested_attempt
 
 
 class SchedReader(object):
